@@ -24,6 +24,7 @@ import PV.Driver.ImpOps
 import PV.Driver.AlgoOps
 import PV.Driver.SyntaxOps
 import PV.Driver.DispatchOps
+import PV.Driver.CseTableOps
 /-
   Driver operations: one request S-expression in, one reply S-expression out.
 -/
@@ -220,6 +221,7 @@ def handlers : List (Sexp → Option Sexp) :=
    , handleSubst
    , handleEvalTable
    , handleLex
+   , handleCseTable
    -- HANDLERS
   ]
 
